@@ -286,14 +286,14 @@ NearZero(w, j) == w.h[j] < 1 /\ AbsTolUnits * 10 >= w.l[j]
 LnSlack(w, j) ==
     IF w.h[j] >= 1 THEN (AbsTolUnits \div w.h[j]) + 1
     ELSE (((AbsTolUnits * 1000) \div w.l[j]) + 1) * 1000
-QEqKAbs(i, w) ==
+QEqKAbs(i, w, dl) ==
     LET cols == Participants(i) IN
     \/ \E j \in cols : NearZero(w, j)
     \/ /\ AllPosIn(w, cols)
-       /\ AbsI(LnQ(i, w, cols) - lnK[i]) <=
+       /\ AbsI(LnQ(i, w, cols) - (lnK[i] - dl)) <=
               BandLnQ + SumSeq([j \in 1..NS |-> IF j \in cols THEN AbsI(sys.nu[i][j]) * LnSlack(w, j) ELSE 0])
 \* Genuine, with Q = K held to the solver's absolute accuracy
-GenuineAbs(w) == NonNeg(w) /\ KeepsTotals(w) /\ \A i \in Hom : QEqKAbs(i, w)
+GenuineAbs(w, dl) == NonNeg(w) /\ KeepsTotals(w) /\ \A i \in Hom : QEqKAbs(i, w, dl)
 
 \* two results agree: every concentration within the absolute band (units) or 1e-3 relative
 BandClose == 1000
@@ -344,15 +344,21 @@ Adopt ==
     /\ UNCHANGED <<sys, kshift, init, lnK, c0, x, solved, succ, iter, maxiter, runs, out, sexp, guess>>
 
 \* the numerical solver returns vn for the system selected by cnd (several NumSys may be chained)
+\* A STATIC run (neqsys type "static_conditions") never begins a conditional run (runs = 0): the
+\* caller fixes the conditions - precipitates=(TRUE,) for a salt he knows to be saturated, (FALSE,) for an
+\* unsaturated one - nothing is evaluated or switched, and several formulations may be chained.
 SolveWith(cnd, vn, ok) ==
-    \* ... or, for a system without phase transfer, directly (neqsys type "static_conditions": no
-    \* conditional run is ever begun)
-    /\ (phase = "solve" \/ (phase = "eval" /\ solved /\ nconds = <<>>) \/ (phase = "idle" /\ Len(PT) = 0))
-    /\ iter < maxiter
-    /\ cnd = conds
-    /\ x' = vn /\ succ' = ok /\ solved' = TRUE /\ nconds' = <<>>
-    /\ phase' = "eval"
-    /\ UNCHANGED <<sys, kshift, init, lnK, c0, conds, iter, maxiter, runs, out, sexp, guess>>
+    IF runs = 0
+    THEN /\ phase \in {"idle", "term"} /\ Len(cnd) = Len(PT)
+         /\ phase = "term" => cnd = conds
+         /\ conds' = cnd /\ x' = vn /\ succ' = ok /\ solved' = TRUE /\ nconds' = <<>> /\ phase' = "term"
+         /\ UNCHANGED <<sys, kshift, init, lnK, c0, iter, maxiter, runs, out, sexp, guess>>
+    ELSE /\ (phase = "solve" \/ (phase = "eval" /\ solved /\ nconds = <<>>))
+         /\ iter < maxiter
+         /\ cnd = conds
+         /\ x' = vn /\ succ' = ok /\ solved' = TRUE /\ nconds' = <<>>
+         /\ phase' = "eval"
+         /\ UNCHANGED <<sys, kshift, init, lnK, c0, conds, iter, maxiter, runs, out, sexp, guess>>
 
 Switch ==
     /\ Evaluated /\ solved /\ nconds # conds
@@ -373,9 +379,12 @@ GiveUp ==
 \* the public result.  Only "success and sane" is a claim.  judged: TRUE for the library's own
 \* formulations (the claim implies Genuine), FALSE for a deliberately wrong stub formulation (the claim
 \* only implies what "sane" means: non-negative and below the elemental upper bounds)
-Report(vr, ok, sn, exc, isnan, judged) ==
+\* intact: the arguments of the call (initial concentrations, guess) and earlier results of the same object
+\* are what they were before the call (frame property: a calculation changes only what it returns)
+Report(vr, ok, sn, exc, isnan, judged, intact) ==
     /\ IF exc THEN phase \in {"fail", "solve", "eval", "idle", "term"}
        ELSE /\ phase = "term"
+            /\ intact
             /\ isnan \/ (vr = x /\ ok = succ)
             /\ (ok /\ ~isnan) => SaneOK(vr, sn)
             /\ (ok /\ sn /\ judged) => (~isnan /\ Genuine(vr))
@@ -386,10 +395,12 @@ Report(vr, ok, sn, exc, isnan, judged) ==
 \* a second, independent solver (bracketing on the reaction coordinate) on a single-equilibrium
 \* problem: its own output must be genuine (non-negative, same totals, Q = K to its absolute accuracy)
 \* and it must agree with a result the library reported as success and sane
-Bracket(w) ==
-    /\ phase = "done" /\ ~out.exc
-    /\ GenuineAbs(w) = TRUE      \* (compared with TRUE: evaluated as an expression, short-circuit)
-    /\ (out.ok /\ out.sane) => Close(out.x, w, IF AbsTolUnits > 1000 THEN AbsTolUnits ELSE 1000)
+\* dl: micro-ln of a constant activity product g handed to the bracketing solver (0 = none): its law is then
+\* Q g = K, i.e. ln Q = ln K - dl, and the result belongs to another problem than the library's
+Bracket(w, dl) ==
+    /\ phase \in {"done", "checked"} /\ ~out.exc
+    /\ GenuineAbs(w, dl) = TRUE      \* (compared with TRUE: evaluated as an expression, short-circuit)
+    /\ (out.ok /\ out.sane /\ dl = 0) => Close(out.x, w, IF AbsTolUnits > 1000 THEN AbsTolUnits ELSE 1000)
     /\ phase' = "checked"
     /\ UNCHANGED <<sys, kshift, init, lnK, c0, x, conds, nconds, solved, succ, iter, maxiter, runs, out, sexp, guess>>
 
@@ -412,7 +423,7 @@ GenEvalBw ==
 GenSolve ==
     /\ phase = "solve"
     /\ \E vn \in GridStates : Len(vn.h) = NS /\ SolvesFor(conds, vn) /\ SolveWith(conds, vn, TRUE)
-GenReport == phase = "term" /\ Report(x, succ, TRUE, FALSE, FALSE, TRUE)
+GenReport == phase = "term" /\ Report(x, succ, TRUE, FALSE, FALSE, TRUE, TRUE)
 
 NextPool == GenPickHomog \/ GenPickSalt \/ GenShiftK \/ GenPickInit
 NextModel == GenPose \/ GenBegin \/ GenEvalFw \/ GenEvalBw \/ Adopt \/ GenSolve \/ Switch \/ Terminate \/ GiveUp \/ GenReport
